@@ -1,0 +1,212 @@
+//go:build verif
+
+package chipauth
+
+// Contracts for gvc (contract-based deductive verification, see /verif/DESIGN.md).
+// Comment-only file, compiled only under the build tag "verif".
+//
+// Chip Authentication (ICAO 9303-11 §6.2, ECDH): the terminal picks an ephemeral key pair, the session keys are
+// KDF(FE2OS(x(SK_term * PK_IC)), 1/2) for the cipher suite of the selected ChipAuthenticationInfo, secure messaging
+// restarts under them with a zero counter, and the result counts as success only after a protected exchange under the
+// new keys was accepted (SELECT EF.DG14 answered 9000 with a valid MAC).
+
+// cipher suites of the CA protocol table (caAlgInfoLookup is a Go map, abstracted: trusted table lookup)
+//@ pred caSuite(a *CaAlgorithmInfo) { a != nil && ((a.cipherAlg == 1 && a.keySizeBits == 112) || (a.cipherAlg == 2 && (a.keySizeBits == 128 || a.keySizeBits == 192 || a.keySizeBits == 256))) }
+//@ func algInfo
+//@   trusted
+//@   ensures (result1 == nil) == (result0 != nil)
+//@   ensures result1 == nil ==> caSuite(result0) && fresh(result0)
+//@   ensures "table-keys-are-short": result1 == nil ==> len(oid) <= 16
+//@   assigns nothing
+
+// session key of ICAO 9303-11 §9.7.1 from the shared point's x-coordinate as a fixed-width octet string
+//@ spec func caSharedX(c int, pri seq, qx int, qy int) int { ecMulX(c, qx, qy, beS(pri)) }
+
+//@ spec func caSecret(c int, pri seq, qx int, qy int) seq { fe2os(caSharedX(c, pri, qx, qy), fieldLen(c)) }
+//@ func deriveSessionKeys
+//@   props C06 C14 C12
+//@   uses field_element_width
+//@   requires curve != nil && *curve != nil && chipPubKey != nil && chipPubKey.X != nil && chipPubKey.Y != nil && caSuite(caAlgInfo)
+//@   proves "x-is-a-field-element": k != nil && k.X != nil && 0 <= k.X.val && k.X.val < curveP(ref(*curve)) && k.X.val == caSharedX(ref(*curve), termKeypair.Pri, chipPubKey.X.val, chipPubKey.Y.val)
+//@   proves "x-fits-the-field-width": blen(k.X.val) <= fieldLen(ref(*curve))
+//@   proves "shared-secret-is-the-full-width-x-coordinate": len(sharedSecret) == fieldLen(ref(*curve))
+//@        && sharedSecret === caSecret(ref(*curve), termKeypair.Pri, chipPubKey.X.val, chipPubKey.Y.val)
+//@   ensures "key-lengths": len(ksEnc) == kdfLen(caAlgInfo.cipherAlg, caAlgInfo.keySizeBits) && len(ksMac) == kdfLen(caAlgInfo.cipherAlg, caAlgInfo.keySizeBits)
+//@   ensures "keys-are-kdf-1-and-2-of-the-ecdh-secret": ksEnc === kdfKey(caSecret(ref(*curve), termKeypair.Pri, chipPubKey.X.val, chipPubKey.Y.val), 1, caAlgInfo.cipherAlg, caAlgInfo.keySizeBits)
+//@        && ksMac === kdfKey(caSecret(ref(*curve), termKeypair.Pri, chipPubKey.X.val, chipPubKey.Y.val), 2, caAlgInfo.cipherAlg, caAlgInfo.keySizeBits)
+//@   ensures fresh(ksEnc) && fresh(ksMac)
+//@   assigns nothing
+//@   safety all
+
+//@ func caAdvertised
+//@   props C06 C14 C12
+//@   requires doc != nil && (doc.Mf.Lds1.Dg14 != nil ==> doc.Mf.Lds1.Dg14.SecInfos != nil)
+//@   ensures result ==> doc.Mf.Lds1.Dg14 != nil
+//@   assigns nothing
+//@   safety all
+
+// key selection: the key's protocol is the one the suite asks for, and a requested key id is matched exactly
+//@ func selectCAPubKeyInfo
+//@   props C06 C14 C12
+//@   requires caInfo != nil && caAlgInfo != nil && doc != nil && doc.Mf.Lds1.Dg14 != nil && doc.Mf.Lds1.Dg14.SecInfos != nil
+//@   ensures (result1 == nil) == (result0 != nil)
+//@   ensures "key-from-dg14-with-requested-id": result1 == nil ==> (exists i :: 0 <= i && i < len(doc.Mf.Lds1.Dg14.SecInfos.ChipAuthPubKeyInfos)
+//@        && result0.ChipAuthenticationPublicKey.SubjectPublicKey.Bytes === doc.Mf.Lds1.Dg14.SecInfos.ChipAuthPubKeyInfos[i].ChipAuthenticationPublicKey.SubjectPublicKey.Bytes
+//@        && result0.ChipAuthenticationPublicKey.Algorithm.Parameters.FullBytes === doc.Mf.Lds1.Dg14.SecInfos.ChipAuthPubKeyInfos[i].ChipAuthenticationPublicKey.Algorithm.Parameters.FullBytes)
+//@        && result0.Protocol === caAlgInfo.targetOid
+//@        && (caInfo.KeyId != nil ==> result0.KeyId != nil && result0.KeyId.val == caInfo.KeyId.val)
+//@   loop 1 invariant doc.Mf.Lds1.Dg14 != nil && doc.Mf.Lds1.Dg14.SecInfos != nil
+//@   assigns nothing
+//@   safety all
+
+// A usable CA object: reader-built (NewChipAuth) with a session and a document whose DG14, when present, was parsed.
+//@ pred validCA(ca *ChipAuth) { ca != nil && ca.keyGeneratorEc != nil && ca.nfcSession != nil && validNfc(*ca.nfcSession) && ca.document != nil && *ca.document != nil
+//@        && ((*ca.document).Mf.Lds1.Dg14 != nil ==> (*ca.document).Mf.Lds1.Dg14.SecInfos != nil) }
+//@ pred validParams(p *ChipAuthParams) { p != nil && p.Info != nil && caSuite(p.AlgInfo) && p.PubKeyInfo != nil && len(p.Info.Protocol) <= 16
+//@        && (p.Info.KeyId != nil ==> p.Info.KeyId.val >= 0 && blen(p.Info.KeyId.val) <= 1024) }
+
+// TLV construction of the command data (constructed node with dynamic dispatch to its children) is outside the
+// modelled subset (unproved part of C16): only length and freshness are assumed.
+//@ func encodeDynAuthData
+//@   trusted
+//@   ensures len(result) <= len(data) + 16 && fresh(result)
+//@   assigns nothing
+
+//@ func selectCAInfo
+//@   props C06 C14 C12
+//@   requires secInfos != nil
+//@   ensures "suite-from-table": err == nil && caAlgInfo != nil ==> caSuite(caAlgInfo) && caInfo != nil && len(caInfo.Protocol) <= 16
+//@   ensures err != nil ==> caInfo == nil && caAlgInfo == nil
+//@   loop 1 invariant (bestCaAlgInfo != nil ==> caSuite(bestCaAlgInfo) && bestCaInfo != nil && len(bestCaInfo.Protocol) <= 16) && (bestCaInfo != nil ==> bestCaAlgInfo != nil)
+//@   assigns nothing
+//@   safety all
+
+//@ func inferCAInfoFromKeyProtocol
+//@   props C06 C14 C12
+//@   ensures (err == nil) == (caInfo != nil)
+//@   ensures fresh(caInfo)
+//@   assigns nothing
+//@   safety all
+
+//@ func inferCAInfoFromKey
+//@   props C06 C14 C12
+//@   ensures "suite-from-table": err == nil && caAlgInfo != nil ==> caSuite(caAlgInfo) && caInfo != nil && len(caInfo.Protocol) <= 16
+//@   ensures err != nil ==> caInfo == nil && caAlgInfo == nil
+//@   assigns nothing
+//@   safety all
+
+//@ func resolveCAInfo
+//@   props C06 C14 C12
+//@   requires secInfos != nil
+//@   ensures "resolved-or-error": err == nil ==> caInfo != nil && caSuite(caAlgInfo) && len(caInfo.Protocol) <= 16
+//@   ensures err != nil ==> caInfo == nil && caAlgInfo == nil
+//@   assigns nothing
+//@   safety all
+
+//@ func selectChipAuthParams
+//@   props C06 C14 C12
+//@   requires doc != nil && doc.Mf.Lds1.Dg14 != nil && doc.Mf.Lds1.Dg14.SecInfos != nil
+//@   ensures (result1 == nil) == (result0 != nil)
+//@   defines "input-size-assumption-key-id-below-1024-octets": result1 == nil && result0.Info.KeyId != nil ==> result0.Info.KeyId.val >= 0 && blen(result0.Info.KeyId.val) <= 1024
+//@   ensures "params-from-dg14": result1 == nil ==> result0 != nil && result0.Info != nil && caSuite(result0.AlgInfo) && result0.PubKeyInfo != nil && len(result0.Info.Protocol) <= 16 && fresh(result0) && result0.PubKeyInfo.Protocol === result0.AlgInfo.targetOid
+//@        && (exists i :: 0 <= i && i < len(doc.Mf.Lds1.Dg14.SecInfos.ChipAuthPubKeyInfos)
+//@             && result0.PubKeyInfo.ChipAuthenticationPublicKey.SubjectPublicKey.Bytes === doc.Mf.Lds1.Dg14.SecInfos.ChipAuthPubKeyInfos[i].ChipAuthenticationPublicKey.SubjectPublicKey.Bytes
+//@             && result0.PubKeyInfo.ChipAuthenticationPublicKey.Algorithm.Parameters.FullBytes === doc.Mf.Lds1.Dg14.SecInfos.ChipAuthPubKeyInfos[i].ChipAuthenticationPublicKey.Algorithm.Parameters.FullBytes)
+//@        && (result0.Info.KeyId != nil ==> result0.PubKeyInfo.KeyId != nil && result0.PubKeyInfo.KeyId.val == result0.Info.KeyId.val)
+//@   assigns nothing
+//@   safety all
+
+//@ func (chipAuth *ChipAuth) doMseSetKAT
+//@   props C06 C11 C12
+//@   requires validCA(chipAuth) && curve != nil && *curve != nil && okPoint(termKeypair.Pub) && caInfo != nil && (caInfo.KeyId != nil ==> caInfo.KeyId.val >= 0 && blen(caInfo.KeyId.val) <= 1024)
+//@   ensures "error-unless-9000": result == nil ==> (*chipAuth.nfcSession).lastSW == 36864
+//@   ensures (*chipAuth.nfcSession).sm == old((*chipAuth.nfcSession).sm)
+//@   assigns (*chipAuth.nfcSession).lastApduLogEntry, content((*chipAuth.nfcSession).apduLog), content((*chipAuth.nfcSession).sm), (*chipAuth.nfcSession).lastSW, (*chipAuth.nfcSession).lastProtected
+//@   safety all
+
+//@ func (chipAuth *ChipAuth) doMseSetAT
+//@   props C06 C11 C12
+//@   requires validCA(chipAuth) && caInfo != nil && len(caInfo.Protocol) <= 16 && (caInfo.KeyId != nil ==> caInfo.KeyId.val >= 0 && blen(caInfo.KeyId.val) <= 1024)
+//@   ensures "error-unless-9000": result == nil ==> (*chipAuth.nfcSession).lastSW == 36864
+//@   ensures (*chipAuth.nfcSession).sm == old((*chipAuth.nfcSession).sm)
+//@   assigns (*chipAuth.nfcSession).lastApduLogEntry, content((*chipAuth.nfcSession).apduLog), content((*chipAuth.nfcSession).sm), (*chipAuth.nfcSession).lastSW, (*chipAuth.nfcSession).lastProtected
+//@   safety all
+
+//@ func (chipAuth *ChipAuth) doGeneralAuthenticate
+//@   props C06 C11 C12
+//@   requires validCA(chipAuth) && curve != nil && *curve != nil && okPoint(termKeypair.Pub)
+//@   ensures "error-unless-9000": result == nil ==> (*chipAuth.nfcSession).lastSW == 36864
+//@   ensures (*chipAuth.nfcSession).sm == old((*chipAuth.nfcSession).sm)
+//@   assigns (*chipAuth.nfcSession).lastApduLogEntry, content((*chipAuth.nfcSession).apduLog), content((*chipAuth.nfcSession).sm), (*chipAuth.nfcSession).lastSW, (*chipAuth.nfcSession).lastProtected
+//@   safety all
+
+
+// The core of the property: CA is reported successful (evidence returned, no error) only after
+//   (1) the curve and the chip key were resolved from the selected DG14 key,
+//   (2) a new secure-messaging session was installed whose keys are KDF(FE2OS(x(SK_term * PK_IC)), 1/2) for the suite, and
+//   (3) SELECT EF.DG14 was answered 9000 through that session (response accepted by its Decode: MAC under the new KSmac).
+//@ func (chipAuth *ChipAuth) doCaEcdh
+//@   props C06 C11 C12
+//@   requires validCA(chipAuth) && validParams(params)
+//@   ensures (err == nil) == (evidence != nil)
+//@   ensures "success-only-after-protected-exchange-under-new-session": err == nil ==> (*chipAuth.nfcSession).lastProtected && (*chipAuth.nfcSession).lastSW == 36864
+//@        && typeis((*chipAuth.nfcSession).sm, "*iso7816.SecureMessaging") && fresh(as((*chipAuth.nfcSession).sm, "*iso7816.SecureMessaging"))
+//@   ensures fresh(evidence)
+//@   proves "chip-key-is-the-dg14-key": err == nil ==> curve != nil && *curve != nil && chipPubKey != nil && chipPubKey.X != nil && chipPubKey.Y != nil
+//@        && ecKeyOf(params.PubKeyInfo.ChipAuthenticationPublicKey.SubjectPublicKey.Bytes, params.PubKeyInfo.ChipAuthenticationPublicKey.Algorithm.Parameters.FullBytes, ref(*curve), chipPubKey.X.val, chipPubKey.Y.val)
+//@   proves "session-restarted-under-ecdh-keys": err == nil ==> typeis((*chipAuth.nfcSession).sm, "*iso7816.SecureMessaging") && validSM(as((*chipAuth.nfcSession).sm, "*iso7816.SecureMessaging"))
+//@        && as((*chipAuth.nfcSession).sm, "*iso7816.SecureMessaging").alg == params.AlgInfo.cipherAlg
+//@        && as((*chipAuth.nfcSession).sm, "*iso7816.SecureMessaging").ksEnc === kdfKey(caSecret(ref(*curve), termKeypair.Pri, chipPubKey.X.val, chipPubKey.Y.val), 1, params.AlgInfo.cipherAlg, params.AlgInfo.keySizeBits)
+//@        && as((*chipAuth.nfcSession).sm, "*iso7816.SecureMessaging").ksMac === kdfKey(caSecret(ref(*curve), termKeypair.Pri, chipPubKey.X.val, chipPubKey.Y.val), 2, params.AlgInfo.cipherAlg, params.AlgInfo.keySizeBits)
+//@   proves "confirmed-by-a-protected-exchange-under-the-new-keys": err == nil ==> (*chipAuth.nfcSession).lastProtected && (*chipAuth.nfcSession).lastSW == 36864
+//@   proves "evidence-records-the-terminal-key": err == nil ==> evidence.termPri === termKeypair.Pri && evidence.termPubKey === x962(ref(*curve), termKeypair.Pub.X.val, termKeypair.Pub.Y.val)
+//@   assigns (*chipAuth.nfcSession).sm, (*chipAuth.nfcSession).lastApduLogEntry, content((*chipAuth.nfcSession).apduLog), content((*chipAuth.nfcSession).sm), (*chipAuth.nfcSession).lastSW, (*chipAuth.nfcSession).lastProtected
+//@   safety all
+
+//@ func (chipAuth *ChipAuth) executeCA
+//@   props C06 C11 C12
+//@   requires validCA(chipAuth) && validParams(params)
+//@   ensures "success-only-through-ecdh-ca": result1 == nil ==> result0 != nil && (*chipAuth.nfcSession).lastProtected && (*chipAuth.nfcSession).lastSW == 36864
+//@        && typeis((*chipAuth.nfcSession).sm, "*iso7816.SecureMessaging")
+//@   ensures result1 != nil ==> result0 == nil
+//@   ensures fresh(result0)
+//@   assigns (*chipAuth.nfcSession).sm, (*chipAuth.nfcSession).lastApduLogEntry, content((*chipAuth.nfcSession).apduLog), content((*chipAuth.nfcSession).sm), (*chipAuth.nfcSession).lastSW, (*chipAuth.nfcSession).lastProtected
+//@   safety all
+
+//@ func (chipAuth *ChipAuth) DoChipAuth
+//@   props C06 C11 C12
+//@   requires validCA(chipAuth)
+//@   ensures "skipped-when-not-advertised": (*chipAuth.document).Mf.Lds1.Dg14 == nil ==> result == nil && err == nil
+//@   ensures "success-iff-no-error": result != nil ==> (result.Success == (err == nil))
+//@   ensures "success-only-after-protected-exchange-under-new-session": result != nil && result.Success ==>
+//@        (*chipAuth.nfcSession).lastProtected && (*chipAuth.nfcSession).lastSW == 36864 && typeis((*chipAuth.nfcSession).sm, "*iso7816.SecureMessaging")
+//@   assigns (*chipAuth.nfcSession).sm, (*chipAuth.nfcSession).lastApduLogEntry, content((*chipAuth.nfcSession).apduLog), content((*chipAuth.nfcSession).sm), (*chipAuth.nfcSession).lastSW, (*chipAuth.nfcSession).lastProtected
+//@   safety all
+
+// Offline replay (C14): the verdict is positive only if every evidence field is consistent with the DG14 key:
+//   TermPubKey decodes to TermPri * G (both coordinates), the session keys are re-derived from ECDH(TermPri, PK_IC),
+//   the captured response SmRapdu carries a valid MAC under the re-derived KSmac at exactly the captured counter SmSsc
+//   (SmSsc has the counter's width and is at least 1; absent = legacy bundles, counter 2) and its protected status is 9000.
+//@ func VerifyEvidence
+//@   props C14 C06 C12
+//@   requires doc != nil ==> (doc.Mf.Lds1.Dg14 != nil ==> doc.Mf.Lds1.Dg14.SecInfos != nil)
+//@   ensures "result-iff-no-error": (result1 == nil) == (result0 != nil)
+//@   ensures "verdict-carries-the-evidence": result0 != nil ==> result0.Success && result0.Evidence == evidence && evidence != nil && doc != nil && doc.Mf.Lds1.Dg14 != nil
+//@   proves "chip-key-is-the-dg14-key": result1 == nil ==> curve != nil && *curve != nil && chipPubKey != nil && chipPubKey.X != nil && chipPubKey.Y != nil
+//@        && ecKeyOf(params.PubKeyInfo.ChipAuthenticationPublicKey.SubjectPublicKey.Bytes, params.PubKeyInfo.ChipAuthenticationPublicKey.Algorithm.Parameters.FullBytes, ref(*curve), chipPubKey.X.val, chipPubKey.Y.val)
+//@   proves "terminal-public-key-matches-private-key": result1 == nil ==> x962ok(ref(*curve), evidence.TermPubKey)
+//@        && x962X(ref(*curve), evidence.TermPubKey) == ecBaseX(ref(*curve), beS(evidence.TermPri))
+//@        && x962Y(ref(*curve), evidence.TermPubKey) == ecBaseY(ref(*curve), beS(evidence.TermPri))
+//@   proves "session-keys-rederived-from-ecdh-with-the-chip-key": result1 == nil ==> sm != nil && sm.alg == params.AlgInfo.cipherAlg
+//@        && sm.ksEnc === kdfKey(caSecret(ref(*curve), evidence.TermPri, chipPubKey.X.val, chipPubKey.Y.val), 1, params.AlgInfo.cipherAlg, params.AlgInfo.keySizeBits)
+//@        && sm.ksMac === kdfKey(caSecret(ref(*curve), evidence.TermPri, chipPubKey.X.val, chipPubKey.Y.val), 2, params.AlgInfo.cipherAlg, params.AlgInfo.keySizeBits)
+//@   proves "evidence-not-written": result1 == nil ==> evidence.SmSsc === old(evidence.SmSsc) && beS(evidence.SmSsc) == old(beS(evidence.SmSsc))
+//@   proves "counter-predecessor-value-0": result1 == nil && len(evidence.SmSsc) > 0 ==> sscInit != nil && sscInit.val == old(beS(evidence.SmSsc)) - 1
+//@   proves "counter-has-session-width": result1 == nil && len(evidence.SmSsc) > 0 ==> len(ssc) == len(evidence.SmSsc) && beS(evidence.SmSsc) >= 1
+//@   proves "counter-in-range": result1 == nil && len(evidence.SmSsc) > 0 ==> beS(evidence.SmSsc) < pow256(len(ssc))
+//@   proves "counter-predecessor-value": result1 == nil && len(evidence.SmSsc) > 0 ==> sscInit != nil && sscInit.val == beS(evidence.SmSsc) - 1
+//@   proves "counter-predecessor-written": result1 == nil && len(evidence.SmSsc) > 0 ==> beS(ssc) == beS(evidence.SmSsc) - 1
+//@   proves "mac-verified-at-the-captured-counter": result1 == nil && len(evidence.SmSsc) > 0 ==> len(evidence.SmSsc) == len(sm.ssc) && beS(evidence.SmSsc) >= 1 && beS(sm.ssc) == beS(evidence.SmSsc)
+//@   proves "legacy-bundle-counter-two": result1 == nil && len(evidence.SmSsc) == 0 ==> beS(sm.ssc) == 2
+//@   proves "captured-response-accepted-with-status-9000": result1 == nil ==> rApdu != nil && rApdu.Status == 36864
+//@   safety all
